@@ -48,3 +48,48 @@ package variables
 //@   modifies cdom, cval
 //@   ensures result != nil && fresh(result) && allocated(result)
 //@   ensures forall c Container :: unboxptr(c) != result ==> cdom[c] == old(cdom[c]) && cval[c] == old(cval[c])
+
+// ---- the sync.Map based implementation. Set / Get / Has / Map are thin wrappers around sync.Map
+// and carry ASSUMED contracts over the view of iface(vars); Merge, With and FromMap are VERIFIED
+// against them (they build a new container by iterating Map() and calling Set).
+// a container that has not been allocated yet has an empty view
+//@ globalinv #unallocated-containers-are-empty forall c Container, k string :: unboxptr(c) > $brk ==> !cdom[c][k]
+
+//@ func (*Variables).Set
+//@   requires vars != nil
+//@   modifies cdom, cval
+//@   ensures #view forall k string :: (cdom[iface(vars)][k] <==> (old(cdom[iface(vars)][k]) || k == key)) && (k == key ==> cval[iface(vars)][k] == value) && (k != key ==> cval[iface(vars)][k] == old(cval[iface(vars)][k]))
+//@   ensures #others-untouched forall c Container :: c != iface(vars) ==> cdom[c] == old(cdom[c]) && cval[c] == old(cval[c])
+//@ func (*Variables).Map
+//@   requires vars != nil
+//@   nomod
+//@   ensures result != nil && fresh(result)
+//@   ensures #view forall k string :: ((k in result) <==> cdom[iface(vars)][k]) && (cdom[iface(vars)][k] ==> result[k] == cval[iface(vars)][k])
+//@ func (*Variables).Get
+//@   requires vars != nil
+//@   nomod
+//@ func (*Variables).Has
+//@   requires vars != nil
+//@   nomod
+
+//@ func (*Variables).Merge
+//@   requires src != nil
+//@   modifies cdom, cval
+//@   ensures #fresh-result result != nil && result != src && fresh(unboxptr(result)) && allocated(unboxptr(result)) && (vars != nil ==> result != iface(vars)) && typeof(result) == tag("*Variables")
+//@   ensures #C08.view vars != nil ==> over(result, iface(vars), src)
+//@   ensures #C08.view-nil-receiver vars == nil ==> (forall k string :: (cdom[result][k] <==> cdom[src][k]) && (cdom[src][k] ==> cval[result][k] == cval[src][k]))
+//@   ensures #C08.operands-untouched forall c Container :: c != result ==> cdom[c] == old(cdom[c]) && cval[c] == old(cval[c])
+//@   loop 1 "range vars.Map()"
+//@     invariant #same vars == vars0 && src == src0 && vars != nil && src != nil && dst != nil && fresh(dst) && allocated(dst)
+//@     invariant #C08.others forall c Container :: c != iface(dst) ==> cdom[c] == old(cdom[c]) && cval[c] == old(cval[c])
+//@     invariant #C08.copied forall k string :: (cdom[iface(dst)][k] <==> $seen[k]) && ($seen[k] ==> cval[iface(dst)][k] == cval[iface(vars)][k])
+//@   loop 2 "range src.Map()"
+//@     invariant #same vars == vars0 && src == src0 && src != nil && dst != nil && fresh(dst) && allocated(dst)
+//@     invariant #C08.others forall c Container :: c != iface(dst) ==> cdom[c] == old(cdom[c]) && cval[c] == old(cval[c])
+//@     invariant #C08.merged forall k string :: (cdom[iface(dst)][k] <==> ((vars != nil && cdom[iface(vars)][k]) || $seen[k])) && ($seen[k] ==> cval[iface(dst)][k] == cval[src][k]) && (!$seen[k] && vars != nil && cdom[iface(vars)][k] ==> cval[iface(dst)][k] == cval[iface(vars)][k])
+
+//@ func (*Variables).With
+//@   modifies cdom, cval
+//@   ensures #fresh-result result != nil && fresh(unboxptr(result)) && allocated(unboxptr(result)) && (vars != nil ==> result != iface(vars))
+//@   ensures #C08.view vars != nil ==> (forall k string :: (cdom[result][k] <==> (cdom[iface(vars)][k] || k == key)) && (k == key ==> cval[result][k] == value) && (k != key && cdom[iface(vars)][k] ==> cval[result][k] == cval[iface(vars)][k]))
+//@   ensures #C08.operands-untouched forall c Container :: c != result ==> cdom[c] == old(cdom[c]) && cval[c] == old(cval[c])
